@@ -351,6 +351,16 @@ class TaggedUnionConverter(UnionConverter):
                 self.tag_map[val] = i
             except AttributeError:
                 raise TypeError(f"Tag '{self.tag}' not found inside type '{ty}'") from None
+        self.tags: t.Tuple[t.Any, ...] = tuple(self.tag_map.keys())
+        """Declared tag of each type (same order as self.types)"""
+
+    def _variant_index(self, tag: t.Any) -> int:
+        """Index of the variant declared with `tag`. Raises KeyError (or TypeError for an unhashable tag) otherwise."""
+        i = self.tag_map[tag]
+        if type(tag) is not type(self.tags[i]):
+            # equal to a declared tag, but of another kind (True == 1 == 1.0)
+            raise KeyError(tag)
+        return i
 
     def tag_expected(self) -> str:
         """Return a string list of the expected/supported tags"""
@@ -416,7 +426,7 @@ class TaggedUnionConverter(UnionConverter):
                 raise ParseInterrupt()
             tag, val = val[t_r], val[c_r]
         try:
-            i = self.tag_map[tag]
+            i = self._variant_index(tag)
         except (KeyError, TypeError):  # unknown or unhashable tag
             raise ParseInterrupt()
         return self.converters[i].try_convert(val)
@@ -445,7 +455,7 @@ class TaggedUnionConverter(UnionConverter):
                 return WrongTypeError(f"mapping with keys '{t_r}' and '{c_r}'", val)
             tag, val = val[t_r], val[c_r]
         try:
-            i = self.tag_map[tag]
+            i = self._variant_index(tag)
         except (KeyError, TypeError):  # unknown or unhashable tag
             return WrongTypeError(f"tag '{self.tag}' one of {self.tag_expected()}", tag)
         return self.converters[i].collect_errors(val)
